@@ -400,3 +400,72 @@ def c04_regex_bounded(repo, tier):
                              "status": "proved" if ok else "refuted", "detail": json.dumps(r["bad"][:3]),
                              "witness": r["bad"][:3], "confirmed": not ok}],
             "samples": [{"bounded_cases": r["cases"], "bound_tokens": bound}]}
+
+
+# =============================================================== C11 / C12 combinations
+FACADE_KEYS = ["TempUnits", "SetpointG", "DisplayedTempG", "RealSetPointG", "Heating", "CoolingDown", "EconActive",
+               "P1", "P2", "P3", "P4", "P5", "BL", "Waterfall", "UdLi", "CP", "PumpRun", "O3", "SwmActive", "Clean", "Purge",
+               "SwmRisk", "PackType", "PackConfID", "PackConfRev", "PackConfRel", "ConfigNumber"]
+
+
+def _item_sig(it):
+    s = shape_of(it)
+    return (it["pos"], s[0], s[1], s[2], s[3], s[4])
+
+
+def _facade_projection(cfg, log):
+    """everything of a (config, log) table pair the facade code can depend on"""
+    items = {}
+    for it in cfg.get("items", []):
+        items[it["key"]] = it
+    for it in log.get("items", []):
+        items[it["key"]] = it           # log overrides config, like dict(config, **log)
+    rel = set(FACADE_KEYS) | set(cfg.get("output_keys", [])) | set(log.get("user_demand_keys", [])) | set(log.get("error_keys", []))
+    sig = []
+    for k in sorted(rel):
+        sig.append((k, _item_sig(items[k]) if k in items else None))
+    return (tuple(cfg.get("output_keys", [])), tuple(log.get("all_device_keys", [])), tuple(log.get("user_demand_keys", [])),
+            tuple(log.get("error_keys", [])), tuple(sig))
+
+
+def c11_all_combos(repo):
+    mods = all_modules(repo)
+    out = []
+    for p in sorted((m for m in mods if m.get("kind") == "pack"), key=lambda m: m["module"]):
+        cfgs = sorted((m for m in mods if m.get("kind") == "cfg" and m["platform"] == p["platform"]), key=lambda m: m["file_version"])
+        logs = sorted((m for m in mods if m.get("kind") == "log" and m["platform"] == p["platform"]), key=lambda m: m["file_version"])
+        for c in cfgs:
+            for l in logs:
+                out.append({"id": "%s-c%d-l%d" % (p["platform"], c["file_version"], l["file_version"]), "platform": p["platform"],
+                            "cfg": c["file_version"], "log": l["file_version"],
+                            "example": "%s cfg %d log %d" % (p["platform"], c["file_version"], l["file_version"]),
+                            "_proj": hashlib.sha1(repr(_facade_projection(c, l)).encode()).hexdigest()})
+    return out
+
+
+def c11_representatives(repo):
+    """one combination per class of identical facade-relevant table projection (keys, shapes AND positions of every
+    item the facade reads): combinations in one class execute the facade code identically for every block"""
+    seen = {}
+    for c in c11_all_combos(repo):
+        e = seen.setdefault(c["_proj"], dict(c, members=0))
+        e["members"] += 1
+    out = sorted(seen.values(), key=lambda c: c["id"])
+    for c in out:
+        c["example"] += " (stands for %d combinations with identical facade-relevant tables)" % c["members"]
+    return out
+
+
+def c11_quick(repo):
+    """quick tier: one combination per distinct key structure (which outputs / devices / demands / facade items exist),
+    ignoring positions and label lists; the thorough tier runs every class of c11_representatives"""
+    mods = {m["module"]: m for m in all_modules(repo)}
+    seen = {}
+    for c in c11_representatives(repo):
+        cfg = mods["%s-cfg-%d" % (c["platform"], c["cfg"])]
+        log = mods["%s-log-%d" % (c["platform"], c["log"])]
+        keys = set(it["key"] for it in cfg["items"]) | set(it["key"] for it in log["items"])
+        sig = (tuple(cfg.get("output_keys", [])), tuple(log.get("all_device_keys", [])), tuple(log.get("user_demand_keys", [])),
+               tuple(sorted(k for k in FACADE_KEYS if k in keys)), len(log.get("error_keys", [])) > 0)
+        seen.setdefault(sig, c)
+    return sorted(seen.values(), key=lambda c: c["id"])
